@@ -212,6 +212,7 @@ impl Send {
         #[cfg(feature = "verif-hooks")]
         let _verif = crate::verif::enter("send.send_reset", || {
             vec![
+                stream.verif_serial,
                 u32::from(stream.id) as i64,
                 stream.state.is_send_streaming() as i64,
                 stream.state.is_send_closed() as i64,
@@ -308,6 +309,7 @@ impl Send {
         #[cfg(feature = "verif-hooks")]
         let _verif = crate::verif::enter("send.schedule_implicit_reset", || {
             vec![
+                stream.verif_serial,
                 u32::from(stream.id) as i64,
                 stream.state.is_send_streaming() as i64,
                 stream.state.is_send_closed() as i64,
@@ -420,6 +422,7 @@ impl Send {
         #[cfg(feature = "verif-hooks")]
         let _verif = crate::verif::enter("send.poll_capacity", || {
             vec![
+                stream.verif_serial,
                 u32::from(stream.id) as i64,
                 stream.state.is_send_streaming() as i64,
                 stream.state.is_send_closed() as i64,
@@ -461,6 +464,7 @@ impl Send {
         #[cfg(feature = "verif-hooks")]
         crate::verif::ev("send.capacity", || {
             vec![
+                stream.verif_serial,
                 u32::from(stream.id) as i64,
                 stream.state.is_send_streaming() as i64,
                 stream.state.is_send_closed() as i64,
@@ -557,6 +561,7 @@ impl Send {
         #[cfg(feature = "verif-hooks")]
         let _verif = crate::verif::enter("send.handle_error", || {
             vec![
+                stream.verif_serial,
                 u32::from(stream.id) as i64,
                 stream.state.is_send_streaming() as i64,
                 stream.state.is_send_closed() as i64,
@@ -647,6 +652,7 @@ impl Send {
                         #[cfg(feature = "verif-hooks")]
                         crate::verif::ev("send.settings_dec_stream", || {
                             vec![
+                                stream.verif_serial,
                                 u32::from(stream.id) as i64,
                                 stream.state.is_send_streaming() as i64,
                                 stream.state.is_send_closed() as i64,
